@@ -114,16 +114,16 @@ Qed.
 
 (** names *)
 Lemma next_token_name : forall n rest, regular_name n = true -> delim_follows rest ->
-  next_token (47 :: n ++ rest) = STok [TName n] rest.
+  next_token (47 :: esc_name n ++ rest) = STok [TName n] rest.
 Proof.
   intros n rest H D. unfold regular_name in H. apply andb_true_iff in H. destruct H as [H U].
   unfold next_token. rewrite skip_ws_stay by reflexivity. ifc.
-  rewrite scan_name_regular by assumption. rewrite decode_name_regular by assumption.
+  rewrite scan_name_esc by assumption. rewrite decode_name_esc by assumption.
   rewrite U. reflexivity.
 Qed.
 
 Lemma tokenize_name_sp : forall n rest, regular_name n = true ->
-  tokenize (47 :: n ++ 32 :: rest) = TName n :: tokenize rest.
+  tokenize (47 :: esc_name n ++ 32 :: rest) = TName n :: tokenize rest.
 Proof.
   intros n rest H. rewrite (tokenize_step _ _ _ (next_token_name n (32 :: rest) H eq_refl)).
   cbn [app]. rewrite tokenize_ws by reflexivity. reflexivity.
